@@ -5,7 +5,8 @@ from framework import coq_bs, coq_N, coq_nat, coq_list, canon_exc
 ID = 'C15'
 COQ_IMPORTS = ['C15_Model']
 GENERATORS = ['gen_flags']
-OPS = {'rt': 0, 'blocks': 1, 'multi': 2, 'read': 3, 'row2fts': 4, 'fts2row': 5, 'rowrt': 6, 'ftsrt': 7}
+MODELLED_FUNCS = {'sugar/_io/stockholm.py': ['row2fts', 'fts2row', 'read_stockholm', 'write_stockholm']}
+OPS = {'rt': 0, 'blocks': 1, 'multi': 2, 'read': 3, 'row2fts': 4, 'fts2row': 5, 'rowrt': 6, 'ftsrt': 7, 'readc': 8, 'multiloc': 9}
 RESERVED = ['items', 'keys', 'values', 'get', 'update', 'pop', 'copy', 'setdefault', 'clear', 'popitem']
 RULE = ('abstract alignments (1-6 rows, width 1-70, random GF/GC/GS/GR sets with adversarial ids/keys/values) written by sugar and '
         'read back (StringIO handle and real files); the same alignments rendered by an independent interleaving renderer at every '
@@ -44,8 +45,10 @@ def model_term(case):
     alns = [case['aln']] if 'aln' in case else case.get('alns', [])
     n = case.get('bw', case.get('n', 0))
     t = case.get('text', case.get('row', ''))
-    return 'out (run_C15 %s %s %s %s %s)' % (coq_N(OPS[op]), coq_list([coq_aln(a) for a in alns]), coq_nat(n), coq_bs(t),
-                                            coq_fts(case.get('fts', [])))
+    mf = coq_list(['(%s, %s)' % (coq_bs(name), coq_list(['(%s, %s, %s)' % (coq_nat(a), coq_nat(b), coq_N(d)) for a, b, d in locs]))
+                   for name, locs in case.get('mfts', [])])
+    return 'out (run_C15 %s %s %s %s %s %s)' % (coq_N(OPS[op]), coq_list([coq_aln(a) for a in alns]), coq_nat(n), coq_bs(t),
+                                               coq_fts(case.get('fts', [])), mf)
 
 
 def split_model(case, m):
@@ -148,7 +151,24 @@ def impl(case):
         return [text, reads(text, case['n'])]
     if op == 'read':
         return reads(case['text'], case['n'])
+    if op == 'readc':
+        from sugar import read
+        f = io.StringIO(case['text'])
+        comments = []
+        try:
+            r = canon(read(f, 'stockholm', comments=comments))
+        except Exception as e:
+            r = canon_exc(e)
+        return [[r, case['text'][f.tell():]], comments]
     from sugar._io.stockholm import row2fts, fts2row
+    if op == 'multiloc':
+        from sugar.core.fts import Defect, Feature, FeatureList, Location
+        fl = []
+        for name, locs in case['mfts']:
+            ft = Feature(None, [Location(a, b, defect=Defect(d)) for a, b, d in locs])
+            ft.meta.name = name
+            fl.append(ft)
+        return fts2row(FeatureList(fl))
     if op == 'row2fts':
         return [ft_tuple(ft) for ft in row2fts(case['row'])]
     if op == 'fts2row':
@@ -351,6 +371,20 @@ def spec(case, got):
                 return 'rest after read %d is %r' % (i, rest)
             if i < len(case['alns']) - 1 and not rest.startswith('# STOCKHOLM'):
                 return 'read %d did not stop at the end of the alignment' % i
+        return None
+    if op == 'readc':
+        if isinstance(got, dict):
+            return 'raised %s' % got['e']
+        (parsed, rest), comments = got
+        # first principles: comment lines are the stripped lines starting with '#' that are not markup / header,
+        # up to the terminator or the offending line
+        exp = []
+        for ln in case['text'][:len(case['text']) - len(rest)].split('\n'):
+            t = ln.strip()
+            if t.startswith('#') and t[:4] not in ('#=GF', '#=GC', '#=GS', '#=GR') and not t.startswith('# STOCKHOLM'):
+                exp.append(t)
+        return None if comments == exp else 'comments %r, expected %r' % (comments, exp)
+    if op == 'multiloc':
         return None
     if op == 'read':
         if case.get('expect') is None or zlib.crc32(case['text'].encode('latin-1')) != case.get('crc'):
@@ -614,6 +648,31 @@ def gen_cases(rng, tier):
     for t in ['', '\n', '//\n', '# STOCKHOLM 1.0\n', 'a A\n', 'a A', '#=GF ID x\n#=GF ID y\n//\n', 'a AC\na GU\n//\nb A\n//\n',
               '#=GS a DE x\n#=GS a DE y z\na A\n', '#=GR b SS <\nb A\n#=GR b SS >\nb C\n', 'a\n', ' \n\n a  A C \n']:
         cases.append({'op': 'read', 'text': t, 'n': 2, 'expect': None})
+    # --- comments=[] collects the comment lines (stockholm.py:135-137)
+    for i in range(400 if T else 40):
+        a = gen_aln(rng, maxrows=3, maxw=12, small=rng.random() < 0.5)
+        w = len(a['rows'][0][1])
+        text = render(a, rng.choice([w, max(1, w // 2)]), rng, {'noise': True, 'seps': rng.random() < 0.5, 'move': rng.random() < 0.5,
+                                                               'end': rng.choice(['//', None, '//'])})
+        if rng.random() < 0.2:
+            lines = text.split('\n')
+            lines[rng.randrange(len(lines))] = rng.choice(['garbage', '#=GF k', '# late comment', '#=GX a b c'])
+            text = '\n'.join(lines)
+        cases.append({'op': 'readc', 'text': text})
+    # --- features with several locations (warning branch, stockholm.py:61-62)
+    for i in range(300 if T else 30):
+        fts = gen_wf_fts(rng)
+        mf = []
+        for start, stop, d, name in fts:
+            locs = [[start, stop, d]]
+            if stop - start >= 4 and rng.random() < 0.7:
+                cut = rng.randint(start + 1, stop - 2)
+                gap = rng.randint(1, stop - cut - 1)
+                locs = [[start, cut, rng.choice([d & 1, d & 1, d & 1 | 2, d | 8])], [cut + gap, stop, rng.choice([d & 2, d & 2, d & 2 | 1, d | 4])]]
+                if rng.random() < 0.3:
+                    locs.reverse()
+            mf.append([name, locs])
+        cases.append({'op': 'multiloc', 'mfts': mf})
     # --- feature rows
     for i in range(3000 if T else 250):
         fts = gen_wf_fts(rng, big=(i % 12 == 0))
@@ -658,6 +717,10 @@ def nontrivial(case, got):
         if any(f[1] - f[0] > 2 * len(f[3]) + 150 for f in fts):
             m.append('long')
         return op + ':' + '+'.join(m) if m else None
+    if op == 'readc':
+        return 'readc' if isinstance(got, list) and got[1] else None
+    if op == 'multiloc':
+        return 'multiloc' if any(len(l) > 1 for _, l in case['mfts']) else None
     row = case['row']
     return op if ('|' in row and re.search('[^.|]', row)) else None
 
@@ -706,29 +769,43 @@ def python_snippet(case):
     if op in ('row2fts', 'rowrt'):
         return ('from sugar._io.stockholm import row2fts, fts2row\nf = row2fts(%r); print(f); r = fts2row(f); print(repr(r)); '
                 'print(row2fts(r))' % case['row'])
+    if op in ('readc', 'multiloc'):
+        return ('import json, sys; sys.path.insert(0, "/verif/tools"); from props import c15\n'
+                'print(c15.impl(json.loads(%r)))' % __import__('json').dumps(case))
     return ('import sys; sys.path.insert(0, "/verif/tools"); from props import c15\nfrom sugar._io.stockholm import row2fts, fts2row\n'
             'r = fts2row(c15.mkfts(%r)); print(repr(r)); print([c15.ft_tuple(f) for f in row2fts(r)])' % (case['fts'],))
 
 
-LEVEL_TEXT = ('Machine-checked Coq theorems over a line-by-line Gallina model of sugar/_io/stockholm.py, for every well-formed alignment '
-              '(any number of rows, any width, arbitrary GF/GC/GS/GR sets): read(write(a)) = a with every annotation attached to the same '
-              'alignment/sequence and all orders kept; the reader stops after the first "//" and returns the rest of the handle, so n+1 '
-              'successive reads of n concatenated alignments return them in turn and then an empty basket; the interleaved rendering at '
-              'EVERY block width reads to the same result as the single-block form; repeated GF/GS lines are joined by one space. '
-              'row2fts/fts2row: mutually inverse (boundaries, names, shared boundary columns, open ends, offset of the first feature) by '
-              'complete enumeration of two bounded boxes (87 381 rows of length <= 8 over {. | a b}; 129 961 lists of <= 2 features in '
-              'columns 0..9) and by differential testing beyond the boxes. The model is tied to /repo by running sugar (public read/write '
-              'entry points, StringIO handles and real files) and the model on the same generated cases on every run, and by an '
-              'independent Python oracle (own interleaving renderer, own row parser).')
-LEVEL_NOTE = ('All 16 theorems closed under the global context (no axioms). Proved for all inputs: stk_roundtrip, stk_stop, stk_multi, '
-              'stk_interleave(+_stop), stk_gf_join, stk_gs_join, gf_all_frags, gs_all_frags, read_text_gf_join, read_text_gs_join (all fragments of a repeated GF/GS tag anywhere in the file, adjacent or not, joined by single spaces in file order), lines_items. Proved only on bounded boxes (vm_compute enumeration, bounds '
-              'in the statements): row_fts_row_box, fts_row_fts_box; outside the boxes (long names, >2 features, the >150-column name '
-              'repetition of fts2row, str.center parity) the row clauses rest on the correspondence. Trusted: Coq kernel/vm_compute, '
-              'tools/gens/flags.py, the correspondence harness, CPython str/dict/re/io primitives as modelled (Latin-1 only). Modelled rather '
-              'than verified: read_stockholm, write_stockholm, row2fts, fts2row, BioSeq upper-casing, Attr as ordered mapping. Domain: '
-              'printable ASCII; ids non-empty, no whitespace, not starting with "#" or "//" (such lines are markup/terminator in the format); '
-              'keys outside the reserved set of open finding F20; GF/GS values non-empty, stripped, newline-free; rows of equal width >= 1, '
-              'upper-case residues; feature lists: single-location features sharing at most a boundary column, len(name) <= width-2, '
-              'open ends only at column 0 / at the end of the row, defects within MISS_LEFT|MISS_RIGHT. Tab-only separated sequence lines '
-              'raise ValueError in sugar (the reader tests for a space); not produced by the writer, outside the domain.')
+LEVEL_TEXT = ('Machine-checked Coq theorems over a line-by-line Gallina model of sugar/_io/stockholm.py, all for unbounded inputs: '
+              'for every well-formed alignment (any number of rows, any width, arbitrary GF/GC/GS/GR sets) read(write(a)) = a with every '
+              'annotation attached to the same alignment/sequence and all orders kept; the reader stops after the first "//" and returns '
+              'the rest of the handle, so n+1 successive reads of n concatenated alignments return them in turn and then an empty basket; '
+              'the interleaved rendering at EVERY block width reads to the same result as the single-block form, and for ANY placement of '
+              'lines every GC/GR/sequence key reads as the concatenation of its fragments; all fragments of a repeated GF/GS tag (adjacent '
+              'or not) are joined by single spaces in file order. row2fts/fts2row: for every well-formed feature list of any length, width '
+              'and names row2fts(fts2row(l)) = sorted l (boundaries, names incl. the name repetition of wide features, shared boundary '
+              'columns, open ends, offset of the first feature; the row ends at the last stop); for every well-formed row of any length '
+              'row2fts(fts2row(row2fts(r))) = row2fts(r); rows made by fts2row are fixed points. The model is tied to /repo by running '
+              'sugar (public read/write entry points, StringIO handles and real files) and the model on the same generated cases on every '
+              'run (151/151 statements of stockholm.py executed in the quick tier), and by an independent Python oracle (own interleaving '
+              'renderer, own row parser).')
+LEVEL_NOTE = ('All 20 theorems closed under the global context (no axioms). Proved for all inputs: stk_roundtrip, stk_stop, stk_multi, '
+              'stk_interleave(+_stop), stk_columns_anywhere, stk_gf_join, stk_gs_join, gf_all_frags, gs_all_frags, read_text_gf_join, '
+              'read_text_gs_join, lines_items, row_fts_inverse, row_fts_row, row_canonical; the two bounded-box theorems '
+              '(row_fts_row_box, fts_row_fts_box, box_sizes) are kept as regression. Tested only (correspondence): that the Gallina model '
+              'is sugar (every case, both tiers); writer behaviour for absent/empty _stockholm containers; comments=[] collection; features '
+              'with several locations (fts2row uses the location range and the outer defects; outside the domain); error classes on malformed '
+              'rows/feature lists. fts2row(row2fts(row)) = row on arbitrary rows is NOT claimed (false by design: names are re-centred and '
+              'trailing dots dropped); the statement is on the feature level plus the fixed-point theorem. No unreachable statements in the '
+              'modelled functions (row2fts, fts2row, read_stockholm, write_stockholm: 142/142 executed; the two asserts of row2fts never '
+              'fail, shown by the model never reaching them). Trusted: Coq kernel/vm_compute, tools/gens/flags.py, the correspondence '
+              'harness, CPython str/dict/re/io primitives as modelled (Latin-1 only). Modelled rather than verified: read_stockholm, '
+              'write_stockholm, row2fts, fts2row, BioSeq upper-casing, Attr as ordered mapping. Domain: printable ASCII; ids non-empty, no '
+              'whitespace, not starting with "#" or "//" (such lines are markup/terminator in the format); keys outside the reserved set of '
+              'open finding F20; GF/GS values non-empty, stripped, newline-free; rows of equal width >= 1, upper-case residues; feature '
+              'lists: single-location features sharing at most a boundary column, names over [A-Za-z0-9_] (the proofs only need names '
+              'without "." and "|"), len(name) <= width-2, open ends only at column 0 / at the end of the row, defects within '
+              'MISS_LEFT|MISS_RIGHT; rows: printable ASCII, first column "." or "|", one name per segment, a named open last segment keeps '
+              'a dot. Tab-only separated sequence lines raise ValueError in sugar (the reader tests for a space); not produced by the '
+              'writer, outside the domain.')
 TECHNIQUE = 'Coq proof over an executable Gallina model of stockholm.py + differential correspondence on generated cases'
